@@ -547,6 +547,48 @@ def search(payload):
         check(sc)
         if len(fails) >= 5:
             break
+    # 4. connectives and variables of a USER's subclass (they ARE connectives / variables; their own __call__ is what "p evaluated" means)
+    import itertools as _it15
+    from predicate import predicate as _PP15
+
+    class Implies(_PP15.OrPredicate):
+        def __call__(self, x):
+            return (not self.left(x)) or self.right(x)
+
+    class Nand(_PP15.AndPredicate):
+        def __call__(self, x):
+            return not (self.left(x) and self.right(x))
+
+    class Inverted(NamedPredicate):
+        def __call__(self, *args, **kwargs):
+            return not self.v
+
+    def direct_rows(tree, names_):
+        rows = []
+        for bits in _it15.product((False, True), repeat=len(names_)):
+            env = dict(zip(names_, bits))
+            todo = [tree]
+            while todo:
+                t = todo.pop()
+                if isinstance(t, NamedPredicate):
+                    t.v = env[t.name]
+                todo += [c for c in (getattr(t, "left", None), getattr(t, "right", None), getattr(t, "predicate", None)) if isinstance(c, _PP15.Predicate)]
+            rows.append((bits, bool(tree(False))))
+        return rows
+    a_, b_, c_ = NamedPredicate(name="a"), NamedPredicate(name="b"), NamedPredicate(name="c")
+    for label, tree, names_ in (("Implies(a, b)  [class Implies(OrPredicate): __call__ = (not left) or right]", Implies(a_, b_), ["a", "b"]),
+                                ("Nand(a, b) & c  [class Nand(AndPredicate)]", Nand(a_, b_) & c_, ["a", "b", "c"]),
+                                ("~Implies(a, Nand(b, c))", ~Implies(a_, Nand(b_, c_)), ["a", "b", "c"]),
+                                ("Inverted('a') | b  [class Inverted(NamedPredicate): __call__ = not v]", Inverted(name="a") | b_, ["a", "b"])):
+        n += 1
+        want = direct_rows(tree, names_)
+        try:
+            got = [(tuple(r[0]), bool(r[1])) for r in truth_table(tree)]
+        except Exception as e_:  # noqa: BLE001
+            got = f"raised {type(e_).__name__}: {e_}"
+        if got != want:
+            fails.append({"kind": "rows differ from p evaluated under each assignment (a connective / variable of a user's subclass)", "p": label, "names_sorted": names_,
+                          "got": repr(got)[:300], "expected": repr(want)[:300]})
     return {"evaluations": n, "failures": fails, "known_hits": [],
             "samples": samples + [{"oracle": "plain recursive evaluation under itertools.product((False, True), repeat=n) over sorted(set(names))"}]}
 
